@@ -135,6 +135,20 @@ def _mech_tags(seq, is_rev):
     return out
 
 
+def _one_extra_copy(a, b, present_in_both=True):
+    """the symptom of the recorded junction finding: the two multisets of rows differ by exactly one closed hysteresis that one
+    side has once more than the other (counted twice / moved from one pass into the other); anything else is a new violation"""
+    from collections import Counter
+    ca, cb = Counter(a), Counter(b)
+    extra = list((ca - cb).elements()) + list((cb - ca).elements())
+    if len(extra) != 1:
+        return False
+    row = extra[0]
+    if len(row) == 3 and not row[2]:
+        return False                      # a half hysteresis is never part of the recorded symptom
+    return (ca[row] > 0 and cb[row] > 0) if present_in_both else True
+
+
 def run_case(case, ctx):
     seq = [float(v) for v in case["seq"]]
     rng = np.random.Generator(np.random.PCG64(case["rseed"]))
@@ -155,7 +169,8 @@ def run_case(case, ctx):
     ctx.nontrivial(len(expected) > 0 and len(got2) > 0)
     mech = _mech_tags(seq, is_rev)
     detail = {"streams": hcm.streams(), "junction": tags}
-    ctx.check("pass2==periodic_rainflow", got2 == expected, observed=got2, expected=expected, tags=mech, detail=detail)
+    ctx.check("pass2==periodic_rainflow", got2 == expected, observed=got2, expected=expected,
+              tags=mech if _one_extra_copy(got2, expected) else [], detail=detail)
     ctx.check("pass2_all_closed", all(cl for _, _, cl in rows.get(2, [])), observed=rows.get(2), tags=mech, detail=detail)
     halves = [(lo, hi, ri) for ri, rr in rows.items() for lo, hi, cl in rr if not cl]
     ctx.check("half_only_in_pass1_and_symmetric", all(ri == 1 and lo == -hi for lo, hi, ri in halves),
@@ -202,6 +217,8 @@ def run_case(case, ctx):
         mech_r = sorted(set(mech + _mech_tags(ref_seq, is_rev_r)))
         d2 = {"refined": ref_seq, "streams_refined": hcm.streams(), "junction": tags, "junction_refined": tags_r}
         ctx.check("refinement:pass1_unchanged", sorted(rows_r.get(1, [])) == sorted(rows.get(1, [])),
-                  observed=rows_r.get(1), expected=rows.get(1), tags=mech_r, detail=d2)
+                  observed=rows_r.get(1), expected=rows.get(1),
+                  tags=mech_r if _one_extra_copy(rows_r.get(1, []), rows.get(1, []), present_in_both=False) else [], detail=d2)
         ctx.check("refinement:pass2_unchanged", sorted(rows_r.get(2, [])) == sorted(rows.get(2, [])),
-                  observed=rows_r.get(2), expected=rows.get(2), tags=mech_r, detail=d2)
+                  observed=rows_r.get(2), expected=rows.get(2),
+                  tags=mech_r if _one_extra_copy(rows_r.get(2, []), rows.get(2, [])) else [], detail=d2)
